@@ -420,18 +420,22 @@ Proof.
     rewrite fo_write_over_head by lia. cbn [fbytes]. reflexivity.
 Qed.
 
+Lemma Ok_inj_pair {A B} (a a' : A) (b b' : B) : @Ok (A * B) (a, b) = Ok (a', b') -> a = a' /\ b = b'.
+Proof. intros H. injection H as -> ->. split; reflexivity. Qed.
+
 (* ------------------------------------------------------------------ file position *)
 Definition keeps_pos {A} (step : fobj -> res (A * fobj)) : Prop :=
   forall g a g', step g = Ok (a, g') -> fpos g' = fpos g /\ fbytes g' = fbytes g.
 
-Lemma iterate_fo_keeps {A} (step : fobj -> res (A * fobj)) : keeps_pos step ->
-  forall n f acc r f', iterate_fo n step f acc = Ok (r, f') ->
+Lemma run_passes_keeps {A} (steps : list (fobj -> res (A * fobj))) : Forall keeps_pos steps ->
+  forall f acc r f', run_passes steps f acc = Ok (r, f') ->
   fpos f' = fpos f /\ fbytes f' = fbytes f.
 Proof.
-  intros K. induction n as [|n IH]; intros f acc r f' H; cbn [iterate_fo] in H.
-  - injection H as _ <-. split; reflexivity.
-  - destruct (step f) as [[a g]|e] eqn:E; [|discriminate].
-    destruct (K _ _ _ E) as [P B]. destruct (IH _ _ _ _ H) as [P' B']. split; congruence.
+  induction steps as [|step steps IH]; intros K f acc r f' H; cbn [run_passes] in H.
+  - apply Ok_inj_pair in H. destruct H as [_ <-]. split; reflexivity.
+  - inversion K as [|? ? K1 K2]; subst.
+    destruct (step f) as [[a g]|e] eqn:E; [|discriminate].
+    destruct (K1 _ _ _ E) as [P B]. destruct (IH K2 _ _ _ _ H) as [P' B']. split; congruence.
 Qed.
 
 Lemma fo_read_bytes n f : fbytes (snd (fo_read n f)) = fbytes f.
@@ -442,43 +446,44 @@ Proof.
   intros g a g' H. unfold tck_read_fo in H.
   destruct (snd hdr <? 0); [discriminate|].
   destruct (fo_read (-1) (fo_seek_set (snd hdr) g)) as [d f2] eqn:Er.
-  destruct (tck_read_data _ _ d); [|discriminate]. injection H as _ <-.
+  destruct (tck_read_data _ _ d); [|discriminate]. apply Ok_inj_pair in H. destruct H as [_ <-].
   assert (fbytes f2 = fbytes g).
   { change f2 with (snd (d, f2)). rewrite <- Er. reflexivity. }
   split; [reflexivity|assumption].
 Qed.
 
+(* a pass abandoned after its k-th item: the finally clause restores the position all the same *)
+Lemma tck_abandon_fo_keeps b hdr k : keeps_pos (tck_abandon_fo b hdr k).
+Proof.
+  intros g a g' H. unfold tck_abandon_fo in H.
+  destruct (snd hdr <? 0); [discriminate|].
+  destruct (fo_read (-1) (fo_seek_set (snd hdr) g)) as [d f2] eqn:Er.
+  destruct (tck_take_loop _ _ _ _ d _ _); [|discriminate]. apply Ok_inj_pair in H. destruct H as [_ <-].
+  assert (fbytes f2 = fbytes g).
+  { change f2 with (snd (d, f2)). rewrite <- Er. reflexivity. }
+  split; [reflexivity|assumption].
+Qed.
+
+Lemma tck_pass_keeps b hdr p : keeps_pos (tck_pass b hdr p).
+Proof. destruct p; [apply tck_read_fo_keeps|apply tck_abandon_fo_keeps]. Qed.
+
 Lemma tck_header_fo_keeps f hdr f1 : tck_header_fo f = Ok (hdr, f1) ->
   fpos f1 = fpos f /\ fbytes f1 = fbytes f.
 Proof.
   unfold tck_header_fo. destruct (tck_parse_header _); [|discriminate].
-  intros H. injection H as _ <-. split; reflexivity.
+  intros H. apply Ok_inj_pair in H. destruct H as [_ <-]. split; reflexivity.
 Qed.
 
-(* eager load: the position and the bytes of the file object are what they were *)
-Lemma tck_session_eager b iters f r f' :
-  tck_session b false iters f = Ok (r, f') -> fpos f' = fpos f /\ fbytes f' = fbytes f.
+(* load - eager, or lazy followed by ANY sequence of complete or abandoned passes - from any
+   position: the position and the bytes of the file object are what they were *)
+Lemma tck_session_restores b lazy passes f r f' :
+  tck_session b lazy passes f = Ok (r, f') -> fpos f' = fpos f /\ fbytes f' = fbytes f.
 Proof.
   unfold tck_session. destruct (tck_header_fo f) as [[hdr f1]|] eqn:E; [|discriminate].
   intros H. destruct (tck_header_fo_keeps _ _ _ E) as [P B].
-  destruct (iterate_fo_keeps _ (tck_read_fo_keeps b hdr) _ _ _ _ _ H) as [P' B']. split; congruence.
-Qed.
-
-(* lazy load: the bytes are unchanged and complete passes do not move the position any
-   further: it stays where load() left it, whatever the number of passes *)
-Lemma tck_session_lazy_stable b f n r f' :
-  tck_session b true n f = Ok (r, f') ->
-  fbytes f' = fbytes f /\
-  forall m r2 f2, tck_session b true m f = Ok (r2, f2) -> fpos f2 = fpos f'.
-Proof.
-  unfold tck_session. destruct (tck_header_fo f) as [[hdr f1]|] eqn:E; [|discriminate].
-  destruct (tck_header_fo_keeps _ _ _ E) as [P B].
-  destruct (tck_peek_fo b hdr f1) as [fp|] eqn:Ep; [|discriminate].
-  intros H. destruct (iterate_fo_keeps _ (tck_read_fo_keeps b hdr) _ _ _ _ _ H) as [P' B'].
-  split.
-  - rewrite B'. unfold tck_peek_fo in Ep. destruct (snd hdr <? 0); [discriminate|].
-    destruct (tck_peek_loop _ _ _ _ _ _) as [[c|]|]; try discriminate; injection Ep as <-; unfold fo_seek_set, fo_read; cbn [fbytes snd fpos]; congruence.
-  - intros m r2 f2 H2. destruct (iterate_fo_keeps _ (tck_read_fo_keeps b hdr) _ _ _ _ _ H2) as [P2 _]. congruence.
+  apply run_passes_keeps in H.
+  - destruct H as [P' B']. split; congruence.
+  - apply Forall_forall. intros s Hs. apply in_map_iff in Hs as (p & <- & _). apply tck_pass_keeps.
 Qed.
 
 Lemma trk_read_fo_keeps hdr : keeps_pos (trk_read_fo hdr).
@@ -486,41 +491,43 @@ Proof.
   intros g a g' H. unfold trk_read_fo in H.
   destruct (fo_read (-1) (fo_seek_set (snd hdr) g)) as [d f2] eqn:Er.
   destruct (_ || _); [discriminate|].
-  destruct (trk_loop _ _ _ _ _ _ _ _); [|discriminate]. injection H as _ <-.
+  destruct (trk_loop _ _ _ _ _ _ _ _); [|discriminate]. apply Ok_inj_pair in H. destruct H as [_ <-].
   assert (fbytes f2 = fbytes g).
   { change f2 with (snd (d, f2)). rewrite <- Er. reflexivity. }
   split; [reflexivity|assumption].
 Qed.
+
+Lemma trk_abandon_fo_keeps hdr k : keeps_pos (trk_abandon_fo hdr k).
+Proof.
+  intros g a g' H. unfold trk_abandon_fo in H.
+  destruct (fo_read (-1) (fo_seek_set (snd hdr) g)) as [d f2] eqn:Er.
+  destruct (_ || _); [discriminate|].
+  destruct (trk_take_loop _ _ _ _ _ _ _ _ _); [|discriminate]. apply Ok_inj_pair in H. destruct H as [_ <-].
+  assert (fbytes f2 = fbytes g).
+  { change f2 with (snd (d, f2)). rewrite <- Er. reflexivity. }
+  split; [reflexivity|assumption].
+Qed.
+
+Lemma trk_pass_keeps hdr p : keeps_pos (trk_pass hdr p).
+Proof. destruct p; [apply trk_read_fo_keeps|apply trk_abandon_fo_keeps]. Qed.
 
 Lemma trk_header_fo_keeps o f hdr f1 : trk_header_fo o f = Ok (hdr, f1) ->
   fpos f1 = fpos f /\ fbytes f1 = fbytes f.
 Proof.
   unfold trk_header_fo. destruct (fo_read trk_header_size f) as [got g] eqn:Er.
   destruct (trk_parse_header _ _); [|discriminate].
-  intros H. injection H as _ <-. split; [reflexivity|].
+  intros H. apply Ok_inj_pair in H. destruct H as [_ <-]. split; [reflexivity|].
   cbn [fo_seek_set fbytes]. change g with (snd (got, g)). rewrite <- Er. reflexivity.
 Qed.
 
-Lemma trk_session_eager o iters f r f' :
-  trk_session o false iters f = Ok (r, f') -> fpos f' = fpos f /\ fbytes f' = fbytes f.
+Lemma trk_session_restores o lazy passes f r f' :
+  trk_session o lazy passes f = Ok (r, f') -> fpos f' = fpos f /\ fbytes f' = fbytes f.
 Proof.
   unfold trk_session. destruct (trk_header_fo o f) as [[hdr f1]|] eqn:E; [|discriminate].
-  intros H. destruct (trk_header_fo_keeps _ _ _ _ E) as [P B].
-  destruct (iterate_fo_keeps _ (trk_read_fo_keeps hdr) _ _ _ _ _ H) as [P' B'].
-  unfold trk_size_fo, fo_seek_set, fo_seek_end, fo_tell in P', B'. cbn [snd fpos fbytes] in P', B'. split; congruence.
-Qed.
-
-Lemma trk_session_lazy_stable o f n r f' :
-  trk_session o true n f = Ok (r, f') ->
-  fbytes f' = fbytes f /\
-  forall m r2 f2, trk_session o true m f = Ok (r2, f2) -> fpos f2 = fpos f'.
-Proof.
-  unfold trk_session. destruct (trk_header_fo o f) as [[hdr f1]|] eqn:E; [|discriminate].
-  destruct (trk_header_fo_keeps _ _ _ _ E) as [P B].
-  destruct (trk_peek_fo hdr f1) as [fp|] eqn:Ep; [|discriminate].
-  intros H. destruct (iterate_fo_keeps _ (trk_read_fo_keeps hdr) _ _ _ _ _ H) as [P' B'].
-  split.
-  - rewrite B'. unfold trk_peek_fo in Ep. destruct (_ || _); [discriminate|].
-    destruct (trk_step _ _ _ _ _ _); try discriminate; injection Ep as <-; unfold fo_seek_set; cbn [fbytes snd fpos]; congruence.
-  - intros m r2 f2 H2. destruct (iterate_fo_keeps _ (trk_read_fo_keeps hdr) _ _ _ _ _ H2) as [P2 _]. congruence.
+  destruct (trk_header_fo_keeps _ _ _ _ E) as [P B]. destruct lazy; intros H; apply run_passes_keeps in H.
+  - destruct H as [P' B']. split; congruence.
+  - apply Forall_forall. intros s Hs. apply in_map_iff in Hs as (p & <- & _). apply trk_pass_keeps.
+  - destruct H as [P' B']. unfold trk_size_fo, fo_seek_set, fo_seek_end, fo_tell in P', B'.
+    cbn [snd fpos fbytes] in P', B'. split; congruence.
+  - constructor; [apply trk_read_fo_keeps|constructor].
 Qed.
